@@ -24,6 +24,7 @@ Verdict(r) ==
   \cup If(~Moved(r) /\ ~LocalisedFormOf(r.k0, r.a), "aromatisation-touched-a-non-aromatic-bond")
   \cup If(~LocalisedFormOf(r.k1, r.a) \/ ~SameHydrogens(r.k1, r.a), "kekulisation-changes-the-molecule")
   \cup If(~ValenceValid(r.k1), "kekule-form-with-valence-error")
+  \cup If(r.rdh >= 0 /\ r.th # r.rdh, "kekule-form-has-other-hydrogens-than-the-text-denotes")
   \cup If(~Unsaturated4Ring(r.a) /\ ~BenzeneRingsAromatic(r.k0, r.a), "benzene-ring-not-aromatised")
   \cup If(r.a2.bonds # r.a.bonds \/ ~SameHydrogens(r.a2, r.a), "thiele-not-idempotent")
   \cup If(r.k2.bonds # r.k0.bonds \/ ~SameHydrogens(r.k2, r.k0), "kekule-not-idempotent")
